@@ -26,7 +26,10 @@ def expected(case, o, k, form):
     """canonical text of the [value, error] pair produced by nil.try.{<query>}.A"""
     n = QUERY[k]
     r = case["res"][o][k]
-    tag = o + 1
+    tag = case["objs"][o]["efftag"]
+    notag = tag == 0 and (r["r"] == "missing" or (r["r"] == "prop" and r["kind"] in ("meth", "fn"))) and form not in ("index", "which")
+    if notag:          # the marker functions read the receiver's tag: an object without any tag in its chain raises there
+        return "[nil, <err NoPropErr: property `tag` is not defined.>]"
     args = ("nil", "nil") if form in ("read", "chain") else ("7", "8")
     if form == "index":
         if r["r"] != "prop":
@@ -51,30 +54,41 @@ def program(case):
     lines, expect = [], []
     for i, ob in enumerate(case["objs"]):
         oid = i + 1
-        props = ", ".join([f"tag: {oid}"] + [f"{p['n']}: {prop_src(oid, p['n'], p['kind'])}" for p in sorted(ob["own"], key=lambda p: p["n"])])
-        if ob["how"] == "lit":
+        props = ", ".join(([f"tag: {oid}"] if ob["tagged"] else []) + [f"{p['n']}: {prop_src(oid, p['n'], p['kind'])}" for p in sorted(ob["own"], key=lambda p: p["n"])])
+        if ob["rk"] != "obj":
+            lines.append(f"o{oid} := " + {"int": "5", "str": '"s"', "arr": "[1, 2]"}[ob["rk"]])
+        elif ob["how"] == "lit":
             lines.append(f"o{oid} := {{{props}}}")
+        elif not props:
+            lines.append(f"o{oid} := o{ob['src']}.{ob['how']}" + ("({})" if ob["how"] == "bro" else ""))
         else:
             lines.append(f"o{oid} := o{ob['src']}.{ob['how']}({{{props}}})")
         for nz in case.get("noise", []):
             if nz["at"] == oid:       # an unrelated literal evaluated at this point of the history
                 lines.append(f"{{**o{nz['a']}, **o{nz['b']}}}")
     n = len(case["objs"])
+    BUILTIN_DEPTH = {"obj": 2, "int": 4, "str": 3, "arr": 3}
     for o in range(n):
         name = f"o{o + 1}"
+        ob = case["objs"][o]
+        if ob["rk"] != "obj":
+            continue                     # the non-object root itself is not queried, only its descendants
         for k, qn in enumerate(QUERY):
             for form, src in (("read", f"{name}.{qn}"), ("call", f"{name}.{qn}(7, 8)"), ("index", f"{name}['{qn}]"),
                               ("which", f"{name}.which('{qn})&.tag"), ("chain", f"[{name}]@{qn}")):
                 lines.append(f"say(nil.try.{{|u| {src}}}.A)")
                 expect.append((f"{name} {form} {qn}", "out:" + expected(case, o, k, form)))
-        own_public = sorted(["tag"] + [p["n"] for p in case["objs"][o]["own"] if not p["n"].startswith("_")])
+        own_public = sorted((["tag"] if ob["tagged"] else []) + [p["n"] for p in case["objs"][o]["own"] if not p["n"].startswith("_")])
         lines.append(f"say({name}.keys)")
         expect.append((f"{name} keys", "out:[" + ", ".join(q(x) for x in own_public) + "]"))
         lines.append(f"say([{name}.ancestors@{{|x| x['tag]}}, {name}.ancestors.len, {name}.proto['tag]])")
         anc = case["anc"][o]
-        expect.append((f"{name} ancestors/proto", f"out:[[{', '.join(str(a) for a in anc)}], {len(anc) + 2}, {anc[0] if anc else 'nil'}]"))
-        lines.append("say([" + ", ".join(f"{name}.kindOf?(o{x + 1})" for x in range(n)) + f", {name}.kindOf?(Obj), {name}.kindOf?(BaseObj)])")
-        expect.append((f"{name} kindOf?", "out:[" + ", ".join("true" if b else "false" for b in case["kind"][o]) + ", true, true]"))
+        tags = [case["objs"][a - 1]["efftag"] for a in anc]
+        ptag = tags[0] if anc else 0
+        expect.append((f"{name} ancestors/proto", f"out:[[{', '.join(str(t) for t in tags if t)}], {len(anc) + BUILTIN_DEPTH[ob['root']]}, {ptag if ptag else 'nil'}]"))
+        if ob["root"] == "obj":       # kindOf? goes through ==, which is not identity for descendants of non-object values
+            lines.append("say([" + ", ".join(f"{name}.kindOf?(o{x + 1})" for x in range(n)) + f", {name}.kindOf?(Obj), {name}.kindOf?(BaseObj)])")
+            expect.append((f"{name} kindOf?", "out:[" + ", ".join("true" if b else "false" for b in case["kind"][o]) + ", true, true]"))
     return "\n".join(lines), expect
 
 
@@ -113,10 +127,11 @@ def run():
             if got != want:
                 parts = what.split()
                 oi = int(parts[0][1:]) - 1
-                kind = "-"
+                kind = "-" if c["objs"][oi]["tagged"] else "untagged"
+                kind += "" if c["objs"][oi]["root"] == "obj" else ":root=" + c["objs"][oi]["root"]
                 if len(parts) == 3:
                     r = c["res"][oi][QUERY.index(parts[2])]
-                    kind = f"{r['r']}/{r['kind']}/{'own' if r['owner'] == oi + 1 else 'inherited'}"
+                    kind += f":{r['r']}/{r['kind']}/{'own' if r['owner'] == oi + 1 else 'inherited'}"
                 ck.reject(f"C05:{parts[1]}:{kind}:{c['objs'][oi]['how']}", f"{what}: got {got[4:]}, the forest model gives {want[4:]}",
                           {"src": reqs[i]["src"], "query": what, "observed": got, "expected": want, "forest": c["objs"]})
         if any(r["r"] == "missing" or (r["r"] == "prop" and r["owner"] != oi + 1) for oi, rs in enumerate(c["res"]) for r in rs):
